@@ -2,6 +2,8 @@ import Nri.Model.TopoAware
 import Nri.Proofs.TopoAware
 import Nri.Props.C01
 import Nri.Props.C06
+import Nri.Props.C07
+import Nri.Proofs.LibMemRelease
 import Nri.Gen.TAFacts
 /-!
 C09 — no leaks (topology-aware and libmem halves).
@@ -185,3 +187,22 @@ theorem released_holds_nothing (t : TA) (g : Grant) :
   simpa using h.2
 
 end Nri.TA
+
+namespace Nri.LibMem
+
+/-! ### libmem half: draining the allocator leaves nothing behind -/
+
+/-- **no memory allocations at quiescence**: after ANY history of Allocate / GetOffer / Realloc /
+Release from the empty allocator, releasing every allocation that is still there - in any order,
+repetitions and unknown ids included - leaves no request behind, and every node set has zero
+usage (so the allocator is back in the state it had after start-up, up to the version counter
+and the order of empty zone-table entries). -/
+theorem libmem_quiescent_is_empty (nodes : List Node) (ops : List Op) (ids : List String)
+    (hall : ∀ q ∈ (St.run { nodes := nodes } ops).reqs, q.id ∈ ids) :
+    ((St.run { nodes := nodes } ops).releaseAll ids).reqs = [] ∧
+    ∀ z, ((St.run { nodes := nodes } ops).releaseAll ids).zoneUsage z = 0 := by
+  have hinv := run_placement nodes ops
+  have ha : Assigned (St.run { nodes := nodes } ops) := fun q hq => and_ne_zero_left (hinv.placed q hq)
+  exact releaseAll_empty _ ha ids hall
+
+end Nri.LibMem
